@@ -17,6 +17,7 @@ import (
 	"cuelang.org/go/internal/mod/semver"
 	"cuelang.org/go/mod/module"
 	"cuelang.org/go/verifh/model"
+	"cuelang.org/go/verifh/mon"
 )
 
 type c14mv struct{ path, ver string }
@@ -632,6 +633,7 @@ func init() {
 				}
 			}
 		})
+		c.CheckRaceLogs(mon.RaceLogPrefix())
 		c.Set("distinct_callback_orders", len(orders))
 		c.Set("graphs", nGraphs)
 		c.Sample(map[string]any{"semver_triple": []string{c14genVer(c.RNG("s")), c14genVer(c.RNG("t")), c14genVer(c.RNG("u"))}})
